@@ -1,4 +1,4 @@
-import RsMatterVerif.Lemmas.Expand
+import RsMatterVerif.Lemmas.ExpandEvents
 /-!
 # C06 — every Interaction Model operation is mediated by the access check
 
@@ -141,104 +141,6 @@ theorem timed_gate_live (flag : Bool) (inst : Option Nat) (now : Nat)
       · simp [hgt] at h
       · omega
 
-/-! ## the model's access check is the specification's `permitted` -/
-
-theorem and_single_bit (a i : Nat) : a &&& 2 ^ i = 2 ^ i ∨ a &&& 2 ^ i = 0 := by
-  cases h : a.testBit i
-  · right
-    apply Nat.eq_of_testBit_eq
-    intro j
-    simp only [Nat.testBit_and, Nat.testBit_two_pow, Nat.zero_testBit]
-    by_cases hij : i = j
-    · subst hij; simp [h]
-    · simp [hij]
-  · left
-    apply Nat.eq_of_testBit_eq
-    intro j
-    simp only [Nat.testBit_and, Nat.testBit_two_pow]
-    by_cases hij : i = j
-    · subst hij; simp [h]
-    · simp [hij]
-
-theorem contains_eq_declHas (a i : Nat) : contains a (2 ^ i) = declHas a (2 ^ i) := by
-  unfold contains declHas
-  have hpos : 2 ^ i ≠ 0 := Nat.pos_iff_ne_zero.mp (Nat.two_pow_pos i)
-  rcases and_single_bit a i with h | h
-  · rw [h]; simp
-  · rw [h]; simp [hpos.symm]
-
-theorem contains_read (a : Nat) : contains a READ = declHas a Consts.accRead := contains_eq_declHas a 4
-theorem contains_write (a : Nat) : contains a WRITE = declHas a Consts.accWrite := contains_eq_declHas a 5
-theorem contains_timed (a : Nat) : contains a Consts.accTimedOnly = declHas a Consts.accTimedOnly :=
-  contains_eq_declHas a 8
-theorem contains_fabScoped (a : Nat) : contains a Consts.accFabScoped = declHas a Consts.accFabScoped :=
-  contains_eq_declHas a 6
-
-theorem find_unique {ls : List Leaf} {l : Leaf} (hl : l ∈ ls) (hnd : (ls.map (·.id)).Nodup) :
-    ls.find? (fun a => a.id == l.id) = some l := by
-  induction ls with
-  | nil => cases hl
-  | cons x xs ih =>
-    simp only [List.map_cons, List.nodup_cons, List.mem_map, not_exists, not_and] at hnd
-    rcases List.mem_cons.mp hl with rfl | hl'
-    · simp
-    · have : x.id ≠ l.id := fun h => hnd.1 l hl' h.symm
-      rw [List.find?_cons_of_neg (by simpa using this)]
-      exact ih hl' hnd.2
-
-/-- under the hypotheses of C05, the code's decision for a request equals the specification's -/
-theorem allow_eq_grantedB (fabrics : List Fabric) (req : AccessReq)
-    (hwf : WF fabrics) (hc : CanonicalPrivs fabrics) (hop : ReadOrWrite req) :
-    allow fabrics req = grantedB fabrics req := by
-  have h1 := C05.allow_iff_granted fabrics req hwf hc hop
-  have h2 := C05.grantedB_iff fabrics req
-  cases ha : allow fabrics req <;> cases hg : grantedB fabrics req <;> simp_all
-
-/-- **The access check of the code is the `permitted` of the specification** (through C05's
-`allow_iff_granted`), for every existing leaf of a well-formed cluster table. -/
-theorem checkAccess_eq_permitted (ctx : Ctx) (op : Operation) (e : Endpoint) (c : Cluster) (l : Leaf)
-    (hwf : WF ctx.fabrics) (hc : CanonicalPrivs ctx.fabrics)
-    (hl : l ∈ (if op = .invoke then c.cmds else c.attrs))
-    (hnd : ((if op = .invoke then c.cmds else c.attrs).map (·.id)).Nodup) :
-    checkAccess ctx op e c l.id = (match permitted ctx op e c l with
-      | none => .ok ()
-      | some s => .error s) := by
-  cases op with
-  | read =>
-    simp only [reduceCtorEq, if_false] at hl hnd
-    unfold checkAccess checkAttrAccess permitted
-    simp only [find_unique hl hnd, Option.map_some, Option.getD_some, Bool.false_and, Bool.false_eq_true,
-      if_false, contains_read, beq_self_eq_true, if_true]
-    rw [allow_eq_grantedB _ _ hwf hc ⟨.read, rfl⟩]
-    cases declHas l.access Consts.accRead <;>
-      cases grantedB ctx.fabrics (mkReq ctx e.id c.id l.id e.deviceTypes READ l.access) <;> simp
-  | write =>
-    simp only [reduceCtorEq, if_false] at hl hnd
-    unfold checkAccess checkAttrAccess permitted
-    simp only [find_unique hl hnd, Option.map_some, Option.getD_some, Bool.true_and, if_true,
-      contains_write, contains_timed, reduceCtorEq, beq_iff_eq, if_false]
-    rw [allow_eq_grantedB _ _ hwf hc ⟨.write, rfl⟩]
-    cases ctx.timed <;> cases declHas l.access Consts.accTimedOnly <;>
-      cases declHas l.access Consts.accWrite <;>
-      cases grantedB ctx.fabrics (mkReq ctx e.id c.id l.id e.deviceTypes WRITE l.access) <;> simp
-  | invoke =>
-    simp only [if_true] at hl hnd
-    unfold checkAccess checkCmdAccess permitted
-    simp only [find_unique hl hnd, Option.map_some, Option.getD_some, contains_timed, contains_fabScoped,
-      reduceCtorEq, beq_iff_eq, if_false]
-    rw [allow_eq_grantedB _ _ hwf hc ⟨.write, rfl⟩]
-    cases ctx.timed <;> cases declHas l.access Consts.accTimedOnly <;>
-      cases declHas l.access Consts.accFabScoped <;>
-      cases hf : (ctx.accessor.fabIdx == 0) <;>
-      cases grantedB ctx.fabrics (mkReq ctx e.id c.id l.id e.deviceTypes WRITE l.access) <;> simp
-
-theorem nodeWF_tables {node : Node} (h : nodeWF node = true) {e : Endpoint} (he : e ∈ node)
-    {c : Cluster} (hc : c ∈ e.clusters) :
-    (c.attrs.map (·.id)).Nodup ∧ (c.cmds.map (·.id)).Nodup := by
-  unfold nodeWF at h
-  simp only [Bool.and_eq_true, List.all_eq_true, decide_eq_true_iff] at h
-  exact (h.2 e he).2 c hc
-
 /-- **Every expanded item is permitted by the specification.** On a well-formed node and ACL state,
 each item of the expansion is an enabled leaf of the node that the requester can reach and for which
 the specification's `permitted` (operation offered, timed / fabric-scoped marks honoured, access
@@ -275,12 +177,6 @@ theorem expanded_items_permitted (ctx : Ctx) (op : Operation) (node : Node) (pat
 
 /-! ## concrete paths: equality with the specification -/
 
-/-- the answer list of a concrete path `p` for an outcome of `next_for_path` -/
-def outs (p : Path) : PathOutcome → List Out
-  | .item e c l a => [.item e c l false a]
-  | .done => []
-  | .err s => [.status p s]
-
 theorem expand_single_concrete (ctx : Ctx) (op : Operation) (node : Node) (p : Path) (fuel : Nat)
     (hw : isWildcard p = false) :
     expand ctx op node [p] (fuel + 2) = outs p (nextForPath ctx op node p {} none).outcome := by
@@ -298,18 +194,6 @@ theorem expand_single_concrete (ctx : Ctx) (op : Operation) (node : Node) (p : P
     simp only [PathRes.outcome, outs]
     unfold run
     simp [next]
-
-theorem isEndpointAccessible_eq_reachesB (fabrics : List Fabric) (a : Accessor) (ep : Nat) (hwf : WF fabrics) :
-    isEndpointAccessible fabrics a ep = reachesB fabrics a ep := by
-  have h1 := C05.group_reaches_only_member_endpoints fabrics a ep hwf
-  have h2 := C05.reachesB_iff fabrics a ep
-  cases h : isEndpointAccessible fabrics a ep <;> cases h' : reachesB fabrics a ep <;> simp_all
-
-theorem find_unique_filter {ls : List Leaf} {l : Leaf} (hl : l ∈ ls.filter (·.enabled))
-    (hnd : (ls.map (·.id)).Nodup) :
-    (ls.filter (·.enabled)).find? (fun a => a.id == l.id) = some l := by
-  apply find_unique hl
-  exact List.Nodup.sublist (List.Sublist.map _ List.filter_sublist) hnd
 
 /-- **A request consisting of one concrete path is answered exactly as the specification says**:
 the element, nothing (rejected by the caller's filter), or the single status of the first failing
@@ -376,14 +260,302 @@ theorem concrete_path_expected (ctx : Ctx) (op : Operation) (node : Node) (p : P
           | some s => simp [outs, Except.map]
         · simp [hfil, outs]
 
-/-- The full statement of C06 for the expansion: the answers are exactly the specification's list.
-Evaluated by the oracle on every generated request (no counterexample); the soundness half is the
-theorems above, the completeness half (every permitted element is answered, a denied concrete path
-gets exactly its status) is not proved here. -/
+/-- The full statement of C06 for the expansion: the answers are exactly the specification's list
+(once the run has ended; `fuel` only bounds the number of `next` calls). -/
 def C06_full : Prop :=
   ∀ (ctx : Ctx) (op : Operation) (node : Node) (paths : List Path),
     nodeWF node = true → WF ctx.fabrics → CanonicalPrivs ctx.fabrics →
     ∃ fuel, ∀ fuel' ≥ fuel, expand ctx op node paths fuel' = expected ctx op node paths
+
+/-- **The expansion equals the specification** — for every node with `Node`'s documented invariants,
+every ACL state, requester and list of paths (any order, repeats, wildcards and concrete paths
+mixed): every existing, matching, reachable, permitted leaf is yielded exactly once per requesting
+path, in node order; every concrete path gets exactly its item / status / nothing (filtered);
+nothing else comes out. The run ends after `|expected| + 1` calls of `next`. Uses the transparency
+of the last-authorised cache under a fixed ACL state (`leafCheck_cache`). -/
+theorem expansion_eq_expected (ctx : Ctx) (op : Operation) (node : Node) (paths : List Path)
+    (hn : nodeWF node = true) (hwf : WF ctx.fabrics) (hc : CanonicalPrivs ctx.fabrics)
+    (fuel : Nat) (hf : (expected ctx op node paths).length < fuel) :
+    expand ctx op node paths fuel = expected ctx op node paths :=
+  run_spec hn hwf hc fuel _ _ (pend_init ctx op node paths) hf
+
+theorem C06_full_holds : C06_full := fun ctx op node paths hn hwf hc =>
+  ⟨(expected ctx op node paths).length + 1, fun fuel' h =>
+    expansion_eq_expected ctx op node paths hn hwf hc fuel' (by omega)⟩
+
+/-- completeness, spelled out: an element the specification lists for some requested path is
+yielded -/
+theorem permitted_items_yielded (ctx : Ctx) (op : Operation) (node : Node) (paths : List Path)
+    (hn : nodeWF node = true) (hwf : WF ctx.fabrics) (hc : CanonicalPrivs ctx.fabrics)
+    (p : Path) (hp : p ∈ paths) (o : Out) (ho : o ∈ expectedItem ctx op node p)
+    (fuel : Nat) (hf : (expected ctx op node paths).length < fuel) :
+    o ∈ expand ctx op node paths fuel := by
+  rw [expansion_eq_expected ctx op node paths hn hwf hc fuel hf]
+  exact List.mem_flatMap.mpr ⟨p, hp, ho⟩
+
+/-! ## termination: the driver's number of `next` calls is never reached -/
+
+/-- **The expander terminates.** On every node whose endpoints are sorted by id (the invariant
+`resume_endpoint_index` debug-asserts) — whatever the ACL state, the cache, duplicate cluster / leaf
+ids, the request — the three cursors decrease lexicographically with every yield
+(`endpointLoop_yield_measure`), so that after `fuelBound` calls of `next` the run has ended: more
+fuel gives the same list. -/
+theorem expand_terminates (ctx : Ctx) (op : Operation) (node : Node) (paths : List Path)
+    (hs : (node.map (·.id)).Pairwise (· < ·)) (fuel : Nat) (hf : fuelBound op node paths ≤ fuel) :
+    expand ctx op node paths fuel = expand ctx op node paths (fuelBound op node paths) :=
+  run_stable hs _ _ (by simp [stMeasure, fuelBound]) _ hf
+
+/-- … and the number of answers stays below that bound for every fuel -/
+theorem expand_length_lt_bound (ctx : Ctx) (op : Operation) (node : Node) (paths : List Path)
+    (hs : (node.map (·.id)).Pairwise (· < ·)) (fuel : Nat) :
+    (expand ctx op node paths fuel).length < fuelBound op node paths := by
+  have := run_length_le (ctx := ctx) (op := op) hs fuel { items := paths }
+  simp only [stMeasure, fuelBound] at this ⊢
+  unfold expand
+  omega
+
+/-- with the driver's fuel the expansion is the specification's list (in scope of `C06_full`) -/
+theorem expand_at_bound_eq_expected (ctx : Ctx) (op : Operation) (node : Node) (paths : List Path)
+    (hn : nodeWF node = true) (hwf : WF ctx.fabrics) (hc : CanonicalPrivs ctx.fabrics) :
+    expand ctx op node paths (fuelBound op node paths) = expected ctx op node paths := by
+  obtain ⟨f, hf⟩ := C06_full_holds ctx op node paths hn hwf hc
+  rw [← expand_terminates ctx op node paths (nodeWF_sorted hn) (max f (fuelBound op node paths)) (by omega)]
+  exact hf _ (by omega)
+
+/-! ## the node composition is replaced between `next` calls -/
+
+/-- **The cursor only moves forward** (the invariant documented at `resume_endpoint_index`): whatever
+node each call of `next` sees — only: its endpoints are sorted by id — the cursor positions
+`(endpoint id, cluster_index, leaf_index)` left behind by successive yields increase strictly, and
+each yielded triple sits at its cursor position in the node of its call. -/
+theorem swap_cursor_increases (ctx : Ctx) (op : Operation) (p : Path) (hsw : SupportedWildcard op p)
+    (nodes : List Node) (hsorted : ∀ n ∈ nodes, (n.map (·.id)).Pairwise (· < ·)) :
+    (runSwapC ctx op nodes { items := [], item := some p }).Pairwise (fun a b => curLt a.2 b.2) ∧
+    ∀ x ∈ runSwapC ctx op nodes { items := [], item := some p }, PosOk op nodes x :=
+  have h := runSwapC_increasing (ctx := ctx) hsw nodes hsorted nodes (fun _ h => h)
+    { items := [], item := some p } ⟨rfl, rfl⟩
+  ⟨h.2, fun x hx => (h.1 x hx).2⟩
+
+/-- **`node_swap_safe`.** A request for one wildcard path whose answer is produced while the node
+composition changes between calls (call `i` sees `nodes[i]`), under the invariants the code
+documents — every composition well-formed (endpoints sorted by id, distinct ids) and an endpoint id
+denoting the same endpoint throughout (`stableNodes`):
+1. every item was authorised on the node of its call and matches the path;
+2. no leaf is yielded twice;
+3. once the expander is exhausted, every existing, matching, reachable, permitted leaf of an
+   endpoint that is present in every composition has been yielded. -/
+theorem node_swap_safe (ctx : Ctx) (op : Operation) (p : Path) (hsw : SupportedWildcard op p)
+    (nodes : List Node) (hwfn : ∀ n ∈ nodes, nodeWF n = true) (hstab : stableNodes nodes = true)
+    (hwf : WF ctx.fabrics) (hcan : CanonicalPrivs ctx.fabrics) :
+    (∀ o ∈ runSwap ctx op nodes { items := [p] }, ∃ n ∈ nodes, ∃ ep cl lf arr,
+        o = Out.item ep cl lf true arr ∧ Authorised ctx op n (ep, cl, lf) ∧ PathMatches p ep cl lf) ∧
+    (runSwap ctx op nodes { items := [p] }).Pairwise (fun a b => tripleOf a ≠ tripleOf b) ∧
+    (swapEnded ctx op nodes { items := [p] } = true →
+      ∀ E, (∀ n ∈ nodes, E ∈ n) → matchesOpt p.endpoint E.id = true → reachable ctx E = true →
+      ∀ c ∈ E.clusters, matchesOpt p.cluster c.id = true →
+      ∀ l ∈ specLeaves c op, matchesOpt p.leaf l.id = true → ctx.filter E.id c.id l.id = true →
+        permitted ctx op E c l = none →
+        Out.item E.id c.id l.id true (op != .invoke && l.array) ∈ runSwap ctx op nodes { items := [p] }) := by
+  have hst := (stableNodes_iff nodes).mp hstab
+  obtain ⟨hr, he⟩ := runSwap_init ctx op nodes p
+  rw [hr, he]
+  have hws : WildSt p { items := [], item := some p } := ⟨rfl, rfl⟩
+  refine ⟨?_, ?_, ?_⟩
+  · exact runSwap_sound hsw nodes hst nodes (fun _ h => h) _ hws (fun _ _ _ h => by cases h)
+  · exact runSwap_no_repeat hsw nodes hwfn hst nodes (fun _ h => h) _ hws
+  · intro hend E hE hme hre c hc hmc l hl hml hfil hperm
+    have ho : Out.item E.id c.id l.id true (op != .invoke && l.array) ∈ wEndpoint ctx op p E := by
+      unfold wEndpoint
+      rw [hme, hre]
+      simp only [Bool.and_self, if_true]
+      refine List.mem_flatMap.mpr ⟨c, hc, ?_⟩
+      unfold wCluster
+      rw [hmc]
+      simp only [if_true]
+      refine List.mem_filterMap.mpr ⟨l, hl, ?_⟩
+      unfold wItem
+      simp [hml, hfil, hperm]
+    apply runSwap_complete hsw nodes hwfn hst hwf hcan E hE _ ho nodes (fun _ h => h) _ hws
+      (fun _ _ _ h => by cases h) (Or.inl rfl) ?_ hend
+    intro n hn
+    unfold pendW
+    simp only [resumeEndpointIndex, List.drop_zero]
+    rw [wEndpointsFrom_zero]
+    exact List.mem_flatMap.mpr ⟨E, hE n hn, ho⟩
+
+/-! ## the whole request as the controller and the handlers see it (`imRequest`) -/
+
+/-- handlers are called for the items of the answer and for nothing else -/
+theorem e2e_effects_are_items (op : Operation) (flag : Bool) (tr : Option (Nat × Nat)) (paths : List Path)
+    (answers : List Out) :
+    (imRequest op flag tr paths answers).effects = itemsOf (imRequest op flag tr paths answers).resp := by
+  unfold imRequest
+  simp only
+  generalize (if (op == Operation.read) = true then TimedGate.proceed
+    else timedGate flag (tr.map (·.1)) ((tr.map (·.2)).getD 0)) = g
+  cases g with
+  | proceed => simp only; split <;> rfl
+  | timedRequestMismatch => rfl
+  | timeout => rfl
+
+/-- a write / invoke whose timed gate is not open (flag without a live TimedRequest window, or a
+TimedRequest without the flag) has no effect and no per-path answer -/
+theorem e2e_gate_closed_no_effect (op : Operation) (flag : Bool) (tr : Option (Nat × Nat)) (paths : List Path)
+    (answers : List Out) (hop : op ≠ .read)
+    (hg : timedGate flag (tr.map (·.1)) ((tr.map (·.2)).getD 0) ≠ .proceed) :
+    (imRequest op flag tr paths answers).effects = [] ∧ (imRequest op flag tr paths answers).resp = [] ∧
+      (imRequest op flag tr paths answers).top.isSome = true := by
+  unfold imRequest
+  have : (op == Operation.read) = false := by cases op <;> simp_all
+  simp only [this, Bool.false_eq_true, if_false]
+  cases hgt : timedGate flag (tr.map (·.1)) ((tr.map (·.2)).getD 0) with
+  | proceed => exact absurd hgt hg
+  | timedRequestMismatch => exact ⟨rfl, rfl, rfl⟩
+  | timeout => exact ⟨rfl, rfl, rfl⟩
+
+theorem mem_itemsOf {outs : List Out} {t : Nat × Nat × Nat} (h : t ∈ itemsOf outs) :
+    ∃ w a, Out.item t.1 t.2.1 t.2.2 w a ∈ outs := by
+  unfold itemsOf at h
+  obtain ⟨o, ho, hs⟩ := List.mem_filterMap.mp h
+  cases o with
+  | item ep cl lf w a =>
+    simp only [Option.some.injEq] at hs
+    subst hs
+    exact ⟨w, a, ho⟩
+  | status p s => simp at hs
+
+theorem effects_subset_items (op : Operation) (flag : Bool) (tr : Option (Nat × Nat)) (paths : List Path)
+    (answers : List Out) (t : Nat × Nat × Nat) (h : t ∈ (imRequest op flag tr paths answers).effects) :
+    t ∈ itemsOf answers ∧
+      (op ≠ .read → timedGate flag (tr.map (·.1)) ((tr.map (·.2)).getD 0) = .proceed) := by
+  unfold imRequest at h
+  cases hop : (op == Operation.read) with
+  | true =>
+    have : op = .read := by simpa using hop
+    simp only [hop, if_true] at h
+    split at h
+    · cases h
+    · exact ⟨h, fun hh => absurd this hh⟩
+  | false =>
+    simp only [hop, Bool.false_eq_true, if_false] at h
+    cases hgt : timedGate flag (tr.map (·.1)) ((tr.map (·.2)).getD 0) with
+    | proceed =>
+      simp only [hgt] at h
+      split at h
+      · cases h
+      · exact ⟨h, fun _ => rfl⟩
+    | timedRequestMismatch => simp only [hgt] at h; cases h
+    | timeout => simp only [hgt] at h; cases h
+
+/-- **Every effect on the device is a permitted existing item**: whatever the request, a handler
+call happens only for an enabled leaf of the node that matches a requested path, is reachable, and
+is `permitted` by the specification (through `expanded_items_permitted`). -/
+theorem e2e_effect_permitted (ctx : Ctx) (op : Operation) (node : Node) (paths : List Path) (fuel : Nat)
+    (tr : Option (Nat × Nat)) (hn : nodeWF node = true) (hwf : WF ctx.fabrics) (hc : CanonicalPrivs ctx.fabrics)
+    (t : Nat × Nat × Nat)
+    (h : t ∈ (imRequest op ctx.timed tr paths (expand ctx op node paths fuel)).effects) :
+    ∃ e ∈ node, e.id = t.1 ∧ ∃ c ∈ e.clusters, c.id = t.2.1 ∧ ∃ l ∈ specLeaves c op, l.id = t.2.2 ∧
+      reachable ctx e = true ∧ permitted ctx op e c l = none ∧ ∃ p ∈ paths, PathMatches p t.1 t.2.1 t.2.2 := by
+  obtain ⟨hi, _⟩ := effects_subset_items op ctx.timed tr paths _ t h
+  obtain ⟨w, a, hm⟩ := mem_itemsOf hi
+  obtain ⟨e, he, hid, c, hcm, hci, l, hl, hli, hr, _, hp, hpm⟩ :=
+    expanded_items_permitted ctx op node paths fuel t.1 t.2.1 t.2.2 w a hn hwf hc hm
+  exact ⟨e, he, hid, c, hcm, hci, l, hl, hli, hr, hp, hpm⟩
+
+/-- **Timed-only elements act only inside a timed interaction that has not expired**: an effect of
+a write / invoke on an element whose declaration is timed-only implies that the action carried the
+timed flag, was preceded by a TimedRequest, and arrived before the window closed. -/
+theorem e2e_timed_only_live (ctx : Ctx) (op : Operation) (node : Node) (paths : List Path) (fuel : Nat)
+    (tr : Option (Nat × Nat)) (hop : op ≠ .read) (t : Nat × Nat × Nat)
+    (h : t ∈ (imRequest op ctx.timed tr paths (expand ctx op node paths fuel)).effects) :
+    ∃ e ∈ node, e.id = t.1 ∧ ∃ c ∈ e.clusters, c.id = t.2.1 ∧
+      (contains (if op = .invoke then cmdPerms c t.2.2 else attrPerms c t.2.2) Consts.accTimedOnly = true →
+        ctx.timed = true ∧ ∃ timeout elapsed, tr = some (timeout, elapsed) ∧ elapsed ≤ timeout) := by
+  obtain ⟨hi, hg⟩ := effects_subset_items op ctx.timed tr paths _ t h
+  obtain ⟨w, a, hm⟩ := mem_itemsOf hi
+  obtain ⟨e, he, hid, c, hc, hci, himp⟩ := timed_only_needs_timed ctx op node paths fuel t.1 t.2.1 t.2.2 w a hop hm
+  refine ⟨e, he, hid, c, hc, hci, fun ht => ?_⟩
+  have hflag := himp ht
+  refine ⟨hflag, ?_⟩
+  obtain ⟨h1, _⟩ := timed_gate_live _ _ _ (hg hop)
+  obtain ⟨tt, htt, hle⟩ := h1 hflag
+  cases tr with
+  | none => simp at htt
+  | some pr =>
+    obtain ⟨a1, a2⟩ := pr
+    simp only [Option.map_some, Option.some.injEq, Option.getD_some] at htt hle
+    subst htt
+    exact ⟨a1, a2, rfl, hle⟩
+
+/-- in scope of `C06_full` the whole outcome (request-level status, per-path answers, handler calls)
+is the specification's -/
+theorem e2e_outcome_eq_spec (ctx : Ctx) (op : Operation) (node : Node) (paths : List Path)
+    (flag : Bool) (tr : Option (Nat × Nat))
+    (hn : nodeWF node = true) (hwf : WF ctx.fabrics) (hc : CanonicalPrivs ctx.fabrics) :
+    imRequest op flag tr paths (expand ctx op node paths (fuelBound op node paths)) =
+      imRequest op flag tr paths (expected ctx op node paths) := by
+  rw [expand_at_bound_eq_expected ctx op node paths hn hwf hc]
+
+/-! ## events -/
+
+/-- the full statement for event paths: the answer is the specification's list -/
+def Events_full : Prop :=
+  ∀ (ctx : Ctx) (node : Node) (ff : Bool) (paths : List Path) (queue : List EventOcc),
+    eventsWF node = true → WF ctx.fabrics → CanonicalPrivs ctx.fabrics →
+    ctx.accessor.authMode ≠ some AuthMode.group →
+    reportEvents ctx node ff paths queue = expectedEvents ctx node ff paths queue
+
+/-- **Event paths, proved part**: equality with the specification except that a concrete path naming
+an absent event gets no `UnsupportedEvent` status (finding `C06-absent-event-silent`). -/
+theorem events_eq_spec_partial (ctx : Ctx) (node : Node) (ff : Bool) (paths : List Path)
+    (queue : List EventOcc)
+    (hev : eventsWF node = true) (hwf : WF ctx.fabrics) (hcan : CanonicalPrivs ctx.fabrics)
+    (hg : ctx.accessor.authMode ≠ some AuthMode.group) :
+    reportEvents ctx node ff paths queue = expectedEventsSilent ctx node ff paths queue :=
+  reportEvents_eq_expectedSilent ctx node ff paths queue hev hwf hcan hg
+
+/-- every disclosed occurrence exists on the node, is permitted, matches a requested path and passes
+the fabric filter -/
+theorem event_disclosed_visible (ctx : Ctx) (node : Node) (ff : Bool) (paths : List Path)
+    (queue : List EventOcc)
+    (hev : eventsWF node = true) (hwf : WF ctx.fabrics) (hcan : CanonicalPrivs ctx.fabrics)
+    (hg : ctx.accessor.authMode ≠ some AuthMode.group) (o : EventOcc)
+    (h : EvOut.data o ∈ reportEvents ctx node ff paths queue) :
+    o ∈ queue ∧ eventVisible ctx node ff paths o = true := by
+  rw [events_eq_spec_partial ctx node ff paths queue hev hwf hcan hg] at h
+  unfold expectedEventsSilent expectedEvents at h
+  obtain ⟨h, _⟩ := List.mem_filter.mp h
+  rcases List.mem_append.mp h with h | h
+  · obtain ⟨p, _, hp⟩ := List.mem_filterMap.mp h
+    split at hp
+    · obtain ⟨s, _, hs⟩ := Option.map_eq_some_iff.mp hp
+      cases hs
+    · cases hp
+  · obtain ⟨o', ho', heq⟩ := List.mem_map.mp h
+    injection heq with heq
+    subst heq
+    exact ⟨(List.mem_filter.mp ho').1, (List.mem_filter.mp ho').2⟩
+
+/-- **fabric-sensitive events of other fabrics are not disclosed** (no hypotheses): with fabric
+filtering on, a reported occurrence carries no fabric index or the requester's -/
+theorem event_other_fabric_not_disclosed (ctx : Ctx) (node : Node) (paths : List Path)
+    (queue : List EventOcc) (o : EventOcc)
+    (h : EvOut.data o ∈ reportEvents ctx node true paths queue) :
+    o.fab = 0 ∨ o.fab = ctx.accessor.fabIdx := by
+  unfold reportEvents at h
+  rcases List.mem_append.mp h with h | h
+  · obtain ⟨p, _, hp⟩ := List.mem_filterMap.mp h
+    split at hp
+    · split at hp <;> simp at hp
+    · cases hp
+  · obtain ⟨o', ho', heq⟩ := List.mem_map.mp h
+    injection heq with heq
+    subst heq
+    have := (List.mem_filter.mp ho').2
+    simp only [Bool.not_true, Bool.false_or, Bool.and_eq_true] at this
+    have hf := this.1.1
+    unfold matchesFabric at hf
+    simpa using hf
 
 /-! ## non-vacuity -/
 
@@ -451,5 +623,58 @@ example : expand (demoCtx false) .read demoNode [conc 0 31 0] 2 = expectedItem (
         subst hf
         simp only [List.mem_cons, List.not_mem_nil, or_false] at he
         subst he; exact ⟨.manage, rfl⟩)
+
+/-- the hypotheses of `expansion_eq_expected` / `expand_terminates` hold for the demo request, and
+the bound is a concrete number -/
+example : fuelBound .read demoNode [wild, conc 0 31 0] = 19 := by decide
+example : (demoNode.map (·.id)).Pairwise (· < ·) := by decide
+example : expand (demoCtx false) .read demoNode [wild, conc 0 31 0, wild] (fuelBound .read demoNode [wild, conc 0 31 0, wild]) =
+    [.item 1 6 0 true false, .item 1 6 1 true false, .status (conc 0 31 0) .unsupportedAccess,
+     .item 1 6 0 true false, .item 1 6 1 true false] := by decide
+
+/-- node swap: endpoint 0 disappears after the first call and endpoint 2 (a copy of endpoint 1's
+shape under another id) appears; nothing is repeated, endpoint 1 (present throughout) is complete -/
+def demoNode2 : Node :=
+  [ demoNode[1]!, { id := 2, deviceTypes := [256], clusters := demoNode[1]!.clusters } ]
+def demoAclAll : List Fabric :=
+  [ { fabIdx := 1,
+      acl := [ { privilege := PRIV_ADMIN, authMode := .case, subjects := some [5], targets := none, fabIdx := some 1 } ],
+      groups := [] } ]
+def demoCtxAll : Ctx := { demoCtx false with fabrics := demoAclAll }
+example : stableNodes [demoNode, demoNode2, demoNode2, demoNode, demoNode] = true ∧
+    nodeWF demoNode2 = true := by decide
+example : runSwap demoCtxAll .read [demoNode, demoNode2, demoNode2, demoNode, demoNode, demoNode] { items := [wild] } =
+    [.item 0 31 0 true true, .item 1 6 0 true false, .item 1 6 1 true false] ∧
+    swapEnded demoCtxAll .read [demoNode, demoNode2, demoNode2, demoNode, demoNode, demoNode] { items := [wild] } = true := by
+  decide
+example : SupportedWildcard .read wild := ⟨rfl, Or.inl rfl⟩
+
+/-- events: endpoint 1 / cluster 6 with events 0 (`RV`) and 1 (`R` + Manage) -/
+def demoNodeEv : Node :=
+  [ { id := 1, deviceTypes := [256], clusters :=
+      [ { id := 6, attrs := [], cmds := [],
+          events := [ { id := 0, access := 17, array := false, enabled := true },
+                      { id := 1, access := 20, array := false, enabled := true } ] } ] } ]
+def evq : List EventOcc :=
+  [ { ep := 1, cl := 6, ev := 0, fab := 0, num := 1 }, { ep := 1, cl := 6, ev := 1, fab := 0, num := 2 },
+    { ep := 1, cl := 6, ev := 0, fab := 2, num := 3 }, { ep := 1, cl := 6, ev := 7, fab := 0, num := 4 } ]
+/-- an Operate requester: event 0 disclosed (not the occurrence of fabric 2, not the absent event 7),
+event 1 (needs Manage) omitted by the wildcard and refused with a status when named -/
+def demoAclOp : List Fabric :=
+  [ { fabIdx := 1,
+      acl := [ { privilege := PRIV_OPERATE, authMode := .case, subjects := some [5], targets := none, fabIdx := some 1 } ],
+      groups := [] } ]
+def demoCtxOp : Ctx := { demoCtx false with fabrics := demoAclOp }
+example : reportEvents demoCtxOp demoNodeEv true [wild, conc 1 6 1, conc 1 9 0] evq =
+    [.status (conc 1 6 1) .unsupportedAccess, .status (conc 1 9 0) .unsupportedCluster, .data evq[0]!] := by decide
+/-- the full statement fails on the code's model: a concrete path naming an absent event -/
+example : reportEvents demoCtxOp demoNodeEv true [conc 1 6 7] evq = [] ∧
+    expectedEvents demoCtxOp demoNodeEv true [conc 1 6 7] evq = [.status (conc 1 6 7) .unsupportedEvent] := by decide
+/-- the request-level gates -/
+example : (imRequest .write true (some (100, 101)) [conc 1 6 1] []).top = some "Timeout" ∧
+    (imRequest .write true (some (100, 100)) [conc 1 6 1] [.item 1 6 1 false false]).effects = [(1, 6, 1)] ∧
+    (imRequest .write true none [conc 1 6 1] []).top = some "TimedRequestMisMatch" ∧
+    (imRequest .read false none [{ endpoint := none, cluster := none, leaf := some 0 }] []).top = some "InvalidAction" := by
+  decide
 
 end C06
